@@ -20,7 +20,7 @@ from checks.c07 import mc_and_replay
 SPEC = 'MPSTransform'
 INVARIANTS = ['Rep9', 'Divisible', 'Shape', 'InversionInvolution', 'InversionInvolutionPsi', 'SwapInvolution']
 PROPERTIES = ['RollRelabels', 'EnlargeKeeps', 'NormKept']
-ALL_OPS = {'apply_local_op', 'apply_local_op2', 'apply_product_op', 'apply_local_term', 'swap_sites', 'permute_sites', 'add', 'group_sites',
+ALL_OPS = {'apply_local_op', 'apply_local_op2', 'convert_form', 'apply_product_op', 'apply_local_term', 'swap_sites', 'permute_sites', 'add', 'group_sites',
            'group_split', 'enlarge_chi', 'compress_svd', 'canonical_form', 'spatial_inversion', 'roll_mps_unit_cell',
            'enlarge_mps_unit_cell', 'extract_segment'}
 
@@ -29,7 +29,7 @@ SEQ_OPS = {'apply_local_op', 'apply_local_op2', 'spatial_inversion', 'roll_mps_u
            'swap_sites', 'canonical_form'}
 
 
-ACTION_OPS = {'DoLocalOp': 'apply_local_op', 'DoLocalOp2': 'apply_local_op2', 'DoProductOp': 'apply_product_op', 'DoLocalTerm': 'apply_local_term',
+ACTION_OPS = {'DoConvert9': 'convert_form', 'DoLocalOp': 'apply_local_op', 'DoLocalOp2': 'apply_local_op2', 'DoProductOp': 'apply_product_op', 'DoLocalTerm': 'apply_local_term',
               'DoSwap': 'swap_sites', 'DoPermute': 'permute_sites', 'DoAdd': 'add', 'DoGroup': 'group_sites',
               'DoGroupSplit': 'group_split', 'DoEnlargeChi': 'enlarge_chi', 'DoCompress': 'compress_svd', 'DoCanon': 'canonical_form',
               'DoInversion': 'spatial_inversion', 'DoRoll': 'roll_mps_unit_cell', 'DoEnlarge': 'enlarge_mps_unit_cell',
@@ -58,7 +58,8 @@ def h_local_op(rp, l, o):
         rp.sign_free = rp.sign_free or rp.jw_seen     # documented: a global sign may be lost once tensors carry charge
         rp.jw_seen = True
     hm.quiet(rp.psi.apply_local_op, l['i'], l['name'], unitary=uni, renormalize=l['renormalize'], understood_infinite=True)
-    return dict(sig=sig)
+    # (documented: the Jordan-Wigner signs are applied to the stored tensor in place before it is replaced)
+    return dict(sig=sig, inplace_ok=bool(l['jw']))
 
 
 def h_local_op2(rp, l, o):
@@ -83,7 +84,7 @@ def h_local_term(rp, l, o):
         rp.sign_free = rp.sign_free or rp.jw_seen
         rp.jw_seen = True
     hm.quiet(rp.psi.apply_local_term, term, autoJW=True, canonicalize=l['canonicalize'], renormalize=l['renormalize'])
-    return dict(sig=dict(term=' '.join(t[0] for t in term), canonicalize=l['canonicalize'],
+    return dict(inplace_ok=True, sig=dict(term=' '.join(t[0] for t in term), canonicalize=l['canonicalize'],
                          order='<' if term[0][1] < term[-1][1] else ('=' if term[0][1] == term[-1][1] else '>')))
 
 
@@ -128,19 +129,30 @@ def h_enlarge_chi(rp, l, o):
 def h_compress(rp, l, o):
     psi = rp.psi
     want = hm.tensor_from_spec(o['psi'])
+    raw = o['mode'] == 'loose' and rp.hist[rp.step - 1]['o']['mode'] == 'raw'
+    old_norm = float(psi.norm)
     err = hm.quiet(psi.compress_svd, {'chi_max': int(l['chi_max'])})
     got = hm.state_tensor(psi)
-    ov = abs(np.vdot(want.ravel(), got.ravel())) ** 2 / (np.vdot(want, want).real * np.vdot(got, got).real)
+    F = float(abs(np.vdot(want.ravel(), got.ravel())) ** 2 / (np.vdot(want, want).real * np.vdot(got, got).real))
     sig = dict(chi_max=int(l['chi_max']))
+    det = dict(fidelity=F, reported_eps=float(err.eps), reported_ov=float(err.ov), chi=list(psi.chi))
     if max(psi.chi) > l['chi_max']:
-        rp.violation('compress_svd', 'chi_max', dict(chi=list(psi.chi)), **sig)
+        rp.violation('compress_svd', 'chi_max', det, **sig)
         return False
-    if ov < err.ov - 1e-9 or err.eps < -1e-12:
-        rp.violation('compress_svd', 'overlap-bound', dict(overlap=float(ov), reported_ov=float(err.ov), eps=float(err.eps)), **sig)
+    tol = 1e-9
+    # the reported error against the actual deviation of the dense states (both directions)
+    if 1.0 - F > err.eps + tol or err.eps > -np.log(max(F, 1e-300)) + tol or err.eps < -1e-12:
+        rp.violation('compress_svd', 'reported-eps-vs-deviation', det, **sig)
         return False
-    if err.eps < 1e-20 and abs(ov - 1.0) > 1e-9:
-        rp.violation('compress_svd', 'no-truncation-changes-state', dict(overlap=float(ov)), **sig)
+    if F < err.ov - tol:
+        rp.violation('compress_svd', 'overlap-bound', det, **sig)
         return False
+    if raw:
+        # the norm keeps track of the discarded weight: norm' = norm * |psi| * sqrt(F)
+        exp_norm = old_norm * float(np.sqrt(l['n2'] * F))
+        if abs(float(psi.norm) - exp_norm) > 1e-9 * max(1.0, exp_norm):
+            rp.violation('compress_svd', 'norm', dict(det, got=float(psi.norm), expected=exp_norm), **sig)
+            return False
     return dict(skip_state=True, sig=sig)
 
 
@@ -217,6 +229,9 @@ def check(ctx):
     n1 = run('wide', 307 if quick else 29, 4, 1, need=[a for a in ACTION_OPS if a not in ('DoRoll', 'DoEnlarge')])
     n0 = run('infinite', 53 if quick else 7, 3, 1 if quick else 2, ops=INF_OPS, bcs=('infinite',),
              need=['DoRoll', 'DoEnlarge', 'DoInversion', 'DoExtract'])
+    # unit-cell enlargement followed by a change of the canonical form (explicit or inside apply_product_op)
+    n0 += run('infseq', 211 if quick else 23, 2, 2, ops={'enlarge_mps_unit_cell', 'convert_form', 'apply_product_op'},
+              bcs=('infinite',), need=['DoEnlarge', 'DoConvert9'])
     n2 = run('seq2', 4001 if quick else 601, 3, 2, ops=SEQ_OPS if quick else ALL_OPS)
     n3 = 0
     if not quick:
